@@ -173,6 +173,7 @@ func genVerifyHistory(e *Env, r *Rng, idx int) {
 			// mutate a signed field after signing
 			hdr.Header.AppHash = AppHashFor("tamper", h)
 		}
+		e.lvCase(cid, hdr, spec)
 		rr := e.Update(cid, hdr, hrev)
 		if rr == "updated" && r.Chance(0.5) {
 			// move the trust anchor forward
